@@ -59,6 +59,7 @@ func (x *ChanCaster[C, V]) Send(value V) int {
 	x.mutex.Lock()
 	defer x.mutex.Unlock()
 
+	verifHook("caster.send.locked")
 	// load our state, guard no receivers (early exit), and set tracker to the
 	// value of `maxInt32 + receivers`, using CAS to sync with negative adds
 	var (
@@ -85,12 +86,15 @@ func (x *ChanCaster[C, V]) Send(value V) int {
 		}
 	}
 
+	verifHook("caster.send.armed")
 	// broadcast involves sending to all receivers - with the total actually
 	// received being in range [0, receivers], due to potential decrements
 	for range receivers {
 		x.C <- value // may end up received by negative Add calls
+		verifHook("caster.send.sent")
 	}
 
+	verifHook("caster.send.drained")
 	// now, we can retrieve, validate, then reset the state (to 0 - all broadcast + we locked so none added)
 	// note: it should be stable - if it isn't, invariants were violated
 	state = x.state.Load()
@@ -143,6 +147,7 @@ func (x *ChanCaster[C, V]) Add(delta int) int {
 			x.mutex.RLock()
 			defer x.mutex.RUnlock()
 
+			verifHook("caster.add.pos.locked")
 			// add delta to both hi and lo
 			state = x.state.Add(uint64(delta)<<32 | uint64(uint32(delta)))
 		}
@@ -166,6 +171,7 @@ func (x *ChanCaster[C, V]) Add(delta int) int {
 		// note: same delta calc as above, subtracted using two's complement rules
 		state := x.state.Add(^(uint64(delta)<<32 | uint64(uint32(delta)) - 1))
 
+		verifHook("caster.add.neg.applied")
 		// validate, and, if necessary, receive any channel sends that would
 		// otherwise never be received (to avoid Send hanging)
 		if receivers := uint32(state >> 32); receivers <= maxReceivers &&
